@@ -293,7 +293,7 @@ def run(ctx):
         e = entries[(k * 3 + ctx.shard) % len(entries)]
         kw = dict(n_st=rng.choice([1, 2]), n_gs=rng.choice([1, 1, 2]), n_isa=rng.choice([1, 1, 2]), charset='E', rich=True, fill=rng.choice([0.2, 0.5]),
                   opt_prob=rng.choice([0.3, 0.6]), maxrep=1)
-        terms = rng.choice([('~', '*', ':'), ('~', '*', ':'), ('!', '|', '}'), ('\n', '+', '\\')])
+        terms = rng.choice([('~', '*', ':'), ('~', '*', ':'), ('!', '|', '}'), ('\n', '+', '\\'), ('!', '<', '>'), ('>', '|', '&'), ('~', '&', '<')])      # delimiters are input too
         kw['forbid'] = '~*:^' + ''.join(terms)
         try:
             doc = gen_doc.gen_document(e, rng.randrange(1 << 30), **kw)
